@@ -6,7 +6,12 @@ export GOFLAGS=-mod=mod GOPROXY=off GOSUMDB=off GOTOOLCHAIN=local
 mkdir -p evidence replays .work
 ./harness/derive.sh
 # packages that import generated bindings (props/*/NEEDS_BINDINGS) are generated and built by ./check in its work copy
-pkgs=$(cd harness && for p in $(go list -tags verif -e ./ev/... ./corpus/... ./model/... ./refcodec/... ./bridge/... ./codec/... ./rig/... ./cmd/... ./props/... 2>/dev/null | grep -v '^verifh/gen\(/\|$\)'); do d=${p#verifh/}; [ -f "$d/NEEDS_BINDINGS" ] || echo "$p"; done)
+pkgs=$(cd harness && for p in $(go list -tags verif -e ./ev/... ./corpus/... ./model/... ./refcodec/... ./bridge/... ./codec/... ./rig/... ./cmd/... ./props/... 2>/dev/null | grep -v '^verifh/gen\(/\|$\)'); do
+  d=${p#verifh/}
+  case "$d" in props/*) top=$(echo "$d" | cut -d/ -f1-2);; *) top="$d";; esac
+  # a property whose driver needs generated bindings (NEEDS_BINDINGS) is built by ./check in its work copy, sub-packages included
+  [ -f "$top/NEEDS_BINDINGS" ] || [ -f "$d/NEEDS_BINDINGS" ] || echo "$p"
+done)
 (cd harness && go build -tags verif $pkgs ) || { echo "setup: harness does not build"; exit 1; }
 (cd harness && for d in props/*/; do if [ -f "$d/RACE" ] && [ ! -f "$d/NEEDS_BINDINGS" ]; then go build -race -tags verif -trimpath -o /dev/null "./$d" || exit 1; fi; done) || exit 1
 echo "setup ok"
